@@ -48,6 +48,7 @@ from engine import tt, scope
 from engine.common import setup_paths
 
 PROPERTY = 'C08'
+SECOND_PASS = ('run_lib_stripe', 'run_cases')     # see engine/common._run_shard
 LEVEL = 'exploration'
 EXHAUSTIVE = True
 RULE = ('pairs (CNF build, pseudo-Boolean build) of the same input: every constraint builder x '
@@ -1258,12 +1259,19 @@ def run_lib_stripe(args, R):
     state = {'pos': 0, 'tmp': None}
     i, k = args['i'], args['k']
 
+    held = []
+
     def sink(case):
         mine = state['pos'] % k == i
         state['pos'] += 1
         if mine:
-            _run_one(case, R, state)
+            if args.get('reverse'):
+                held.append(case)
+            else:
+                _run_one(case, R, state)
     lib_cases(args['tier'], args['seed'], sink)
+    for case in reversed(held):
+        _run_one(case, R, state)
 
 
 def run_cases(chunk, R):
